@@ -30,7 +30,8 @@ CONSTANTS
   BugPanicNoChild,       \* --connect: the child watcher unwraps a child that does not exist
   BugAbortAfterUpgrade,  \* the upgraded session ends with an abort (descriptor closed twice)
   BugStaleCacheAfterInfo, \* a service-info query redirects the target address but leaves the cached interface name alone
-  BugIgnoreServiceHangup  \* upgraded session: the bridge goes on waiting for the client after the service has hung up
+  BugIgnoreServiceHangup, \* upgraded session: the bridge goes on waiting for the client after the service has hung up
+  BugDropServiceReadAhead \* what the service sent right behind its upgrade reply (read ahead with it) is thrown away
 
 (* request kinds the client sends; svc: which service owns the interface ("A", "B") or "R" for service-info queries *)
 Kinds == {"ok", "stream", "oneway", "error", "closing", "upgrade", "getinfo"}
@@ -55,6 +56,8 @@ VARIABLES
   abandon,     \* the client closes its side right after its last request, without waiting for the replies
   upEnd,       \* who ends an upgraded session: "client" (closes its side after the payload) or "service" (says goodbye and hangs up)
   bye,         \* the service's goodbye reached the client (0 / 1)
+  greet,       \* the upgraded service speaks first: raw bytes right behind the reply that confirms the upgrade
+  hello,       \* that greeting reached the client (0 / 1)
   i,           \* requests consumed by the bridge
   pc,          \* "read" | "route" | "relay" | "raw" | "done"
   out,         \* replies forwarded to the client: [req, n] = n-th reply of request req
@@ -65,14 +68,14 @@ VARIABLES
   rawToClient, \* payload atoms (wrongly) written to the client
   exit         \* "running" | "ok" | "error" | "panic" | "abort"
 
-bvars == <<mode, reqs, payload, pipelined, abandon, upEnd, bye, i, pc, out, got, lastIface, address, rawToSvc, rawToClient, exit>>
+bvars == <<mode, reqs, payload, pipelined, abandon, upEnd, bye, greet, hello, i, pc, out, got, lastIface, address, rawToSvc, rawToClient, exit>>
 
 Services == {"A", "B", "R"}
 
 BInit ==
   /\ i = 0 /\ pc = "read" /\ out = <<>> /\ got = [s \in Services |-> <<>>]
   /\ lastIface = "none" /\ address = "none"
-  /\ rawToSvc = 0 /\ rawToClient = 0 /\ exit = "running" /\ bye = 0
+  /\ rawToSvc = 0 /\ rawToClient = 0 /\ exit = "running" /\ bye = 0 /\ hello = 0
 
 Cur == reqs[i]
 
@@ -82,7 +85,7 @@ ReadReq ==
      THEN /\ i' = i + 1 /\ pc' = "route" /\ UNCHANGED exit
      ELSE \* the client closed its side: the bridge stops, reporting success
           /\ pc' = "done" /\ exit' = "ok" /\ UNCHANGED i
-  /\ UNCHANGED <<mode, reqs, payload, pipelined, abandon, upEnd, bye, out, got, lastIface, address, rawToSvc, rawToClient>>
+  /\ UNCHANGED <<mode, reqs, payload, pipelined, abandon, upEnd, bye, greet, hello, out, got, lastIface, address, rawToSvc, rawToClient>>
 
 \* route + connect + forward in one step (each request on a fresh connection to its target).  The target address is
 \* cached: it is looked up again only when the interface differs from the one of the previous request (a service-info
@@ -101,7 +104,7 @@ RouteForward ==
                   ELSE UNCHANGED <<address, lastIface>>
           /\ got' = [got EXCEPT ![address'] = Append(@, i)]
           /\ pc' = "relay" /\ UNCHANGED <<out, exit>>
-  /\ UNCHANGED <<mode, reqs, payload, pipelined, abandon, upEnd, bye, i, rawToSvc, rawToClient>>
+  /\ UNCHANGED <<mode, reqs, payload, pipelined, abandon, upEnd, bye, greet, hello, i, rawToSvc, rawToClient>>
 
 Relay ==
   /\ pc = "relay"
@@ -114,7 +117,7 @@ Relay ==
            THEN pc' = "done" /\ exit' = "error"
            ELSE IF ~wrong /\ Cur.k = "upgrade" THEN pc' = "raw" /\ UNCHANGED exit
            ELSE pc' = "read" /\ UNCHANGED exit
-  /\ UNCHANGED <<mode, reqs, payload, pipelined, abandon, upEnd, bye, i, got, lastIface, address, rawToSvc, rawToClient>>
+  /\ UNCHANGED <<mode, reqs, payload, pipelined, abandon, upEnd, bye, greet, hello, i, got, lastIface, address, rawToSvc, rawToClient>>
 
 \* upgraded: everything the client sends from now on belongs to the service, starting with what was read ahead
 Raw ==
@@ -129,7 +132,8 @@ Raw ==
              ELSE pc' = "done" /\ exit' = IF BugAbortAfterUpgrade THEN "abort" ELSE "ok"
      ELSE /\ bye' = 0 /\ pc' = "done"
           /\ exit' = IF BugAbortAfterUpgrade THEN "abort" ELSE "ok"
-  /\ UNCHANGED <<mode, reqs, payload, pipelined, abandon, upEnd, i, out, got, lastIface, address>>
+  /\ hello' = IF greet /\ ~BugDropServiceReadAhead THEN 1 ELSE 0
+  /\ UNCHANGED <<mode, reqs, payload, pipelined, abandon, upEnd, greet, i, out, got, lastIface, address>>
 
 (* direct mode: a plain pipe to one service *)
 Direct ==
@@ -146,14 +150,14 @@ Direct ==
   /\ exit' = IF BugPanicNoChild THEN "panic" ELSE "ok"
   \* the payload only has somewhere to go if the connection survived up to the upgrade request
   /\ rawToSvc' = IF \E k \in 1..Len(reqs) : ServiceCloses(reqs[k]) THEN 0 ELSE payload
-  /\ UNCHANGED <<mode, reqs, payload, pipelined, abandon, upEnd, bye, rawToClient, lastIface, address>>
+  /\ UNCHANGED <<mode, reqs, payload, pipelined, abandon, upEnd, bye, greet, hello, rawToClient, lastIface, address>>
 
 \* the client has gone (it closed its side right after the last request): wherever the bridge notices, it stops; a side that
 \* hangs up is not an error
 ClientGone ==
   /\ abandon /\ mode = "resolver" /\ pc \in {"read", "route", "relay"} /\ exit = "running"
   /\ pc' = "done" /\ exit' = "ok"
-  /\ UNCHANGED <<mode, reqs, payload, pipelined, abandon, upEnd, bye, i, out, got, lastIface, address, rawToSvc, rawToClient>>
+  /\ UNCHANGED <<mode, reqs, payload, pipelined, abandon, upEnd, bye, greet, hello, i, out, got, lastIface, address, rawToSvc, rawToClient>>
 
 BNext == (mode = "resolver" /\ (ReadReq \/ RouteForward \/ Relay \/ Raw \/ ClientGone)) \/ Direct
 BSpec == BInit /\ [][BNext]_bvars
@@ -189,6 +193,9 @@ UpgradePayloadToService ==
 \* before hanging up has reached the client
 StopsWhenServiceEnds == pc # "stuck"
 GoodbyeForwarded == (Done /\ UpgradeReached /\ upEnd = "service" /\ payload > 0) => bye = 1
+
+\* what an upgraded service says first (it may arrive together with the reply that confirmed the upgrade) reaches the client
+GreetingForwarded == (Done /\ UpgradeReached /\ greet) => hello = 1
 
 \* nothing went wrong on any socket: the bridge reports success
 ExitZero == Done => exit = "ok"
